@@ -63,8 +63,6 @@ def install(spec: Spec):
     spec.specfuns['count_eq1'] = lambda ex, l, x: occurrences(ex, l, x, True)
 
     # ------------------------------------------------------------------ EventBus._start / cleanup (callee contracts of dispatch)
-    spec.fn('EventBus._run_loop', file=S, qual='EventBus._run_loop', is_async=True, params={'self': 'EventBus'}, returns='NoneType', trusted=True,
-            notes='placeholder until its own contract is written: only ever turned into a task by _start')
     spec.methods[('EventBus', '_run_loop')] = 'EventBus._run_loop'
 
     BUS_INV = 'implies(self._is_running, self.event_queue is not None) and implies(self.event_queue is not None, self._on_idle is not None)'
@@ -344,3 +342,30 @@ def install(spec: Spec):
                     RaisesClause('Exception', label='unexpected', origin='call:EventBus.process_event/unexpected', ensures=[('task_done_once_per_dequeued_event', 'implies(old(event) is None, task_done_calls - old(task_done_calls) == len(dequeued) - len(old(dequeued)) or '
                                                       '(not self._is_running and task_done_calls == old(task_done_calls)))', ['C15', 'C10'])])])
     spec.methods[('EventBus', 'step')] = 'EventBus.step'
+
+    def runloop_step_pre(ex, n):
+        # C16: once a CancelledError was delivered to the run-loop task, no further event is taken
+        ex.oblige('callsite:step/requires', 'not_after_cancel', z3.BoolVal(not ex.st.flags.get('cancelled')), ['C16'])
+        # C06: the run loop is the root of its own task tree: it must not believe it already holds the global lock,
+        # nor that it is inside somebody's handler (A2: a new task copies the creator's context)
+        ex.oblige('callsite:step/requires', 'root_context', ex.spec_bool("not ctx('holds_global_lock') and not ctx('inside_handler') and ctx('current_event') is None and ctx('current_handler_id') is None", dict(ex.st.env)), ['C06', 'C09'])
+
+    def runloop_exit(ex, outcome, result, exc):
+        # C11: an Exception escaping step() (other than queue shutdown / loop closing) must not end the run loop
+        last = ex.st.flags.get('last_callee_exc')
+        if last and last[0] == 'EventBus.step' and last[1] in ('unexpected', 'recursion_guard'):
+            t = smt.tag(last[2].term)
+            ex.oblige('exit', 'exception_from_step_does_not_end_loop',
+                      z3.Or(smt.issub(t, smt.CLASSES['RuntimeError']), smt.issub(t, smt.CLASSES['QueueShutDown'])), ['C11'])
+
+    spec.fn('EventBus._run_loop', file=S, qual='EventBus._run_loop', is_async=True, params={'self': 'EventBus'}, returns='NoneType', interference='runloop',
+            requires=[STARTED], ctx_modifies=['holds_global_lock', 'inside_handler', 'current_event', 'current_handler_id'],
+            modifies=[('_is_running', 'self'), ('ev_set', '*'), ('q_items', '*'), ('q_unfinished', '*'), ('task_done', '*'), ('task_cancel_requested', '*'),
+                      ('_depth', '*'), ('_semaphore', '*'), ('_loop', '*'), ('sem_value', '*'), ('g$global_lock', '*')],
+            ghost_modifies=['dequeued', 'processed', 'task_done_calls', 'permits_held'],
+            callsites={'self.step': {'pre': runloop_step_pre}, 'self._on_idle.set': {'pre': idle_set_pre}},
+            exit_hook=runloop_exit,
+            loops={0: {'inv': [('started', 'self._on_idle is not None and self.event_queue is not None', []),
+                               ('inflight_nonneg', 'task_done_calls <= len(dequeued)', ['C15']),
+                               ('queue_accounting', 'self.event_queue.q_unfinished >= len(self.event_queue.q_items) + (len(dequeued) - task_done_calls)', ['C15'])]}},
+            ensures=[('stopped', 'not self._is_running', ['C16'])])
